@@ -23,6 +23,7 @@ let dispatch = function
   | ["spanb"; name; n2; v] ->   (* same decision with the elimination basis computed once per matrix *)
       (match in_span_with (basis name) (nat_of_int (int_of_string n2)) (mat name) (bits_of_string v) with
        | Some c -> string_of_bits c | None -> "_")
+  | ["nospan"; name; w; v] -> if not_in_span_cert (mat name) (bits_of_string w) (bits_of_string v) then "1" else "0"
   | ["rank"; name] -> string_of_int (int_of_nat (rank (mat name)))
   | ["naive"; name; n; mq; s] ->
       let mq = if mq = "_" then None else Some (nat_of_int (int_of_string mq)) in
